@@ -2,6 +2,8 @@
 # tools/selftest.sh [PROP...] — the must-fail corpus: applies every seeded change in /verif/seeded/*/patch.diff to
 # /repo in turn, runs the property's quick check, expects exit 1 with a VIOLATION line, reverts, and records the
 # obligations that caught it in the seed's meta.json. /repo must be clean (contracts committed).
+# mutant runs must not leave their evidence behind: the committed evidence is what tools/refresh.sh wrote on the clean tree
+EVBAK=$(mktemp -d); cp -r /verif/evidence/. $EVBAK/ 2>/dev/null; trap 'cp -r $EVBAK/. /verif/evidence/ 2>/dev/null; rm -rf $EVBAK' EXIT  # ev.bak
 cd /repo && git diff --quiet || { echo "/repo has uncommitted changes"; exit 2; }
 cd /verif || exit 2
 ./check C20 quick >/dev/null 2>&1   # (re)builds bin/gocv
